@@ -5,7 +5,7 @@ CONSTANTS
   CopiesOpts = TRUE
   SharedSpanVar = FALSE
   MaxCalls = 3
-  Statuses = {200, 299, 404, 500}
-  Unassigned = {299}
+  Statuses = {100, 200, 299, 302, 400, 404, 499, 500}
+  Unassigned = {299, 499}
 INVARIANTS InvProp InvSpans InvFinished InvNoPanic InvNoRace InvClosure
 CHECK_DEADLOCK FALSE
